@@ -554,11 +554,11 @@ func appendString(dst, src []byte, encode bool) []byte {
 	// TODO: Encode only if length is lower with the string encoded
 
 	n := uint64(len(b))
-	nn := len(dst) - 1 // peek last byte
-	if nn >= 0 && dst[nn] != 0 {
-		dst = append(dst, 0)
-		nn++
-	}
+	// The length prefix gets a byte of its own. Reusing a trailing zero byte
+	// cannot tell a byte left for the purpose from the end of the string
+	// before (an empty name, or one that ends in a zero byte).
+	dst = append(dst, 0)
+	nn := len(dst) - 1
 
 	dst = appendInt(dst, 7, n)
 	dst = append(dst, b...)
@@ -618,7 +618,7 @@ func (hp *HPACK) AppendHeader(dst []byte, hf *HeaderField, store bool) []byte {
 				}
 			}
 		} else if !store || hp.DisableDynamicTable { // with or without indexing
-			dst = append(dst, 0, 0)
+			dst = append(dst, 0)
 		} else {
 			dst = append(dst, literalByte)
 			hp.addDynamic(hf)
